@@ -337,14 +337,14 @@ func TestVerifC12V3(t *testing.T) {
 
 		renterKey := c12RenterKey2 // key of the new contract
 		hostUK, renterUK := c12HostKey.PublicKey().UnlockKey(), renterKey.PublicKey().UnlockKey()
-		expUH := contractUnlockConditions(hostUK, renterUK).UnlockHash()
+		expUH := c12UC(hostUK, renterUK).UnlockHash()
 		ids := newC12IDs(expUH)
 		fc := ids.build(c.fc)
 		pt := c.cfg.priceTable()
 		walletAddr := c12Addr(c.cfg.addr)
 
 		// the existing contract
-		exUC := contractUnlockConditions(hostUK, c12RenterKey.PublicKey().UnlockKey())
+		exUC := c12UC(hostUK, c12RenterKey.PublicKey().UnlockKey())
 		existing := types.FileContractRevision{ParentID: types.FileContractID{1, 2, 3}, UnlockConditions: exUC}
 		existing.FileContract = ids.build(c.ex)
 		existing.UnlockHash = exUC.UnlockHash()
